@@ -33,16 +33,18 @@ IdxIn(before, x) == CHOOSE i \in 1..Len(before) : before[i] = x
 
 \* IF_DATA and USER_RIGHTS (outside the implementation-shaped model): a new child goes directly behind the last placed
 \* child of its kind - only new children of the same kind may stand between them
-ExtraKinds == {"IF_DATA", "USER_RIGHTS"}
+ExtraKinds == {"IF_DATA", "USER_RIGHTS", "VARIANT_CODING"}
 PosA(seq, x) == CHOOSE i \in 1..Len(seq) : seq[i] = x
 ExtrasSortNew(after) ==
     \A K \in ExtraKinds :
         LET plK == {x \in Range(after) : x[1] = K /\ x \in placedX}
             newK == {x \in Range(after) : x[1] = K /\ x \notin placedX}
-        IN plK # {} =>
-             LET lastP == CHOOSE i \in {PosA(after, p) : p \in plK} : \A p \in plK : PosA(after, p) <= i IN
-             \A x \in newK : /\ PosA(after, x) > lastP
-                             /\ \A j \in (lastP + 1)..(PosA(after, x) - 1) : after[j][1] = K /\ after[j] \notin placedX
+        IN IF plK # {}
+           THEN LET lastP == CHOOSE i \in {PosA(after, p) : p \in plK} : \A p \in plK : PosA(after, p) <= i IN
+                \A x \in newK : /\ PosA(after, x) > lastP
+                                /\ \A j \in (lastP + 1)..(PosA(after, x) - 1) : after[j][1] = K /\ after[j] \notin placedX
+           \* no placed child of the kind: the new one stays at the end (nothing that was loaded follows it)
+           ELSE \A x \in newK : \A j \in (PosA(after, x) + 1)..Len(after) : after[j] \notin Range(loadedAll)
 NewlyPlacedX(after) == {x \in Range(after) : x[1] \in ExtraKinds /\ x \notin placedX /\ \E p \in placedX : p[1] = x[1]}
 AllOf(ev) == IF "all" \in DOMAIN ev THEN ev.all ELSE <<>>
 
